@@ -9,6 +9,7 @@
  * M4 pair lemmas: the two extracted bodies in sequence restore the window. */
 #include <stddef.h>
 #include <stdint.h>
+#include <stdlib.h>
 typedef uintptr_t instruction_ptr;   /* wrapper of one void* */
 typedef uintptr_t frame_ptr;         /* wrapper of one void* */
 struct AsyncStackRoot;
@@ -388,13 +389,24 @@ void h_scoped_ensureFrameDeactivated(void) {
   window_any();
   struct AsyncStackFrame* p;
   _Bool dead = VF_nondet_bool();
-  if (dead) { struct AsyncStackFrame* d = __CPROVER_allocate(sizeof(struct AsyncStackFrame), 0); p = d; R1.topFrame = VF_nondet_bool() ? d : NULL; __CPROVER_deallocate(d); }
+  if (dead) { struct AsyncStackFrame* d = malloc(sizeof(struct AsyncStackFrame)); __CPROVER_assume(d != NULL); p = d; R1.topFrame = VF_nondet_bool() ? d : NULL; free(d); }
   else { p = VF_nondet_bool() ? &F0 : NULL; }
   struct AsyncStackFrame s0 = F0, s1 = F1;
   ScopedAsyncStackRoot_ensureFrameDeactivated(&SR, p);
   VF_P(F0.stackRoot == s0.stackRoot && F0.parentFrame == s0.parentFrame && F1.stackRoot == s1.stackRoot, "ensureFrameDeactivated never writes to a frame");
   VF_CANARY("after ensureFrameDeactivated");
   if (dead) { VF_CANARY("ensureFrameDeactivated with a dead frame"); }
+}
+/* the frame is ALIVE and still the top frame when the root scope ends (inject_async_stack.hpp _op_wrapper::start() for every
+ * operation that does not complete inside start()): C20 asks for every activated frame to be deactivated again.  Fails on the
+ * unchanged tree (the frame's stackRoot is left pointing at the root that is about to be destroyed):
+ * probes/native/async_stack_op_frame_left_attached.cpp */
+void h_scoped_ensureFrameDeactivated_live(void) {
+  window_any();
+  __CPROVER_assume(WF && CUR.value == &R1 && R1.topFrame == &F0);
+  ScopedAsyncStackRoot_ensureFrameDeactivated(&SR, &F0);
+  VF_P(F0.stackRoot == NULL, "a live frame that is still active when its root scope ends is detached (every frame an operation activates is deactivated again)");
+  VF_CANARY("after ensureFrameDeactivated on a live top frame");
 }
 void h_resume_with_new_root(void) { window_any(); resumeCoroutineWithNewAsyncStackRoot(0, a_frame()); VF_CANARY("after resumeCoroutineWithNewAsyncStackRoot"); }
 
